@@ -35,7 +35,7 @@ def instantiations(tier, seed):
         if k % 4 == 0 and m.get("id") and m["id"] not in picked:
             picked[-1] = m["id"]
         forms = {x: FORMS[(n + k) % 3] for n, x in enumerate(pool)}
-        out.append({"model": m, "assumed": picked, "forms": forms})
+        out.append({"model": m, "assumed": picked, "forms": forms, "warm": k % 3 == 1})
         if k % 5 == 4:
             out.append({"model": F.with_subclass_leaves(m), "assumed": picked, "forms": forms})
     base = F.symbolize(F.AL(2, F.a(), F.i(), F.AL(1, F.b(), F.c(), id="B", sign=1), id="A", sign=1))
@@ -95,6 +95,9 @@ def run_inst(spec, run):
         err = a = r1 = r2 = None
         f1 = Fd()
         try:
+            if spec.get("warm"):
+                plh.warm(ns, m1)
+                plh.warm(ns, m2)
             a = m1.assume(f1)
             if mu == "drop_assumption":
                 r1 = m1.__class__.evaluate(pl.build(ns, model_spec, env), Rd())
